@@ -145,4 +145,332 @@ theorem validGaps_lay (ts : List Token) (o : Bool) (h : ∀ t ∈ ts, t ≠ .unq
           · subst hr; simp [renderTok, followOK_rparen t (h t (by simp))]
           · simp [sep, ho, hr]
 
+/-! ## the defining equations of `display` -/
+
+theorem display_zero (σ : Store) (v : Value) : Prim.display σ 0 v = "…" := rfl
+theorem display_int (σ : Store) (f : Nat) (i : Int) :
+    Prim.display σ (f + 1) (.num (.int i)) = toString i := rfl
+theorem display_rat (σ : Store) (f : Nat) (n d : Int) :
+    Prim.display σ (f + 1) (.num (.rat n d)) = toString n ++ "/" ++ toString d := rfl
+theorem display_bool (σ : Store) (f : Nat) (b : Bool) :
+    Prim.display σ (f + 1) (.bool b) = if b then "#t" else "#f" := by cases b <;> rfl
+theorem display_char (σ : Store) (f : Nat) (c : Char) :
+    Prim.display σ (f + 1) (.char c) = "#\\" ++ c.toString := rfl
+theorem display_sym (σ : Store) (f : Nat) (s : String) : Prim.display σ (f + 1) (.sym s) = s := rfl
+theorem display_nil (σ : Store) (f : Nat) : Prim.display σ (f + 1) .nil = "()" := rfl
+theorem display_pair (σ : Store) (f : Nat) (a d : Value) :
+    Prim.display σ (f + 1) (.pair a d)
+      = "(" ++ Prim.display σ f a ++ Prim.displayTail σ f d ++ ")" := rfl
+theorem display_vec (σ : Store) (f : Nat) (id : Nat) :
+    Prim.display σ (f + 1) (.vec id) = match σ.vecs[id]? with
+      | some cell => "#(" ++ " ".intercalate (cell.items.map (Prim.display σ f)) ++ ")"
+      | none => "#(?)" := rfl
+theorem displayTail_nil (σ : Store) (f : Nat) : Prim.displayTail σ (f + 1) .nil = "" := rfl
+theorem displayTail_pair (σ : Store) (f : Nat) (a d : Value) :
+    Prim.displayTail σ (f + 1) (.pair a d)
+      = " " ++ Prim.display σ f a ++ Prim.displayTail σ f d := rfl
+theorem displayTail_atomic (σ : Store) (f : Nat) (v : Value) (h : isAtomic v = true) :
+    Prim.displayTail σ (f + 1) v = " . " ++ Prim.display σ f v := by
+  cases v <;> first | rfl | simp [isAtomic] at h
+
+/-! ## decimal text -/
+
+theorem toString_nat (n : Nat) : (toString n).toList = showNat n := by
+  simp [toString, showNat, Nat.repr]
+
+theorem toString_int (i : Int) : (toString i).toList = showInt i := by
+  cases i with
+  | ofNat m => simp [toString, Int.repr, showInt, showNat, Nat.repr]
+  | negSucc m => simp [toString, Int.repr, showInt, showNat, Nat.repr, Int.negSucc_lt_zero]
+
+theorem toString_posInt (d : Int) (h : 0 < d) : (toString d).toList = showNat d.toNat := by
+  rw [toString_int, showInt, if_neg (by omega)]
+  congr 1; omega
+
+/-! ## sizes -/
+
+theorem Datum.size_pos (d : Datum) : 0 < d.size := by
+  cases d <;> simp [Datum.size]
+
+theorem Datum.size_le_sizeList {x : Datum} {xs : List Datum} (h : x ∈ xs) :
+    x.size ≤ Datum.sizeList xs := by
+  induction xs with
+  | nil => cases h
+  | cons y ys ih =>
+    simp only [Datum.sizeList]
+    rcases List.mem_cons.1 h with rfl | h
+    · omega
+    · have := ih h; omega
+
+/-! ## `display` on readable values -/
+
+theorem intercalate_items (f : Value → List Char) (g : Value → Datum) (items : List Value)
+    (h : ∀ x ∈ items, f x = showDatum (g x)) :
+    [' '].intercalate (items.map f) = showItems (items.map g) := by
+  cases items with
+  | nil => rfl
+  | cons x xs =>
+    have hx := h x (by simp)
+    have : ∀ (ys : List Value) (pre : List Char), (∀ y ∈ ys, f y = showDatum (g y)) →
+        (List.intersperse [' '] (pre :: ys.map f)).flatten = pre ++ showRest (ys.map g) := by
+      intro ys
+      induction ys with
+      | nil => intro pre _; simp [showRest]
+      | cons y ys ih =>
+        intro pre hy
+        rw [List.map_cons, List.intersperse_cons_cons, List.flatten_cons, List.flatten_cons,
+          ih (f y) (fun z hz => hy z (by simp [hz])), hy y (by simp)]
+        simp [showRest]
+    rw [List.intercalate, List.map_cons, this xs (f x) (fun z hz => h z (by simp [hz])), hx]
+    simp [showItems]
+
+/-- data that are neither pairs nor `()` -/
+def datumAtomic : Datum → Bool
+  | .pair _ _ _ | .nil _ => false
+  | _ => true
+
+theorem showTail_atomic {D : Datum} (h : datumAtomic D = true) :
+    showTail D = ' ' :: '.' :: ' ' :: showDatum D := by
+  cases D <;> simp_all [datumAtomic, showTail, showDatum]
+
+theorem conj_of_atomic {σ : Store} {v : Value} {D : Datum} (hv : isAtomic v = true)
+    (hD : datumAtomic D = true)
+    (h : ∀ f, D.size ≤ f → (Prim.display σ f v).toList = showDatum D) (f : Nat) :
+    (D.size ≤ f → (Prim.display σ f v).toList = showDatum D) ∧
+      (D.size + 1 ≤ f → (Prim.displayTail σ f v).toList = showTail D) := by
+  refine ⟨h f, fun hf => ?_⟩
+  obtain ⟨g, rfl⟩ : ∃ g, f = g + 1 := ⟨f - 1, by omega⟩
+  rw [displayTail_atomic _ _ _ hv, showTail_atomic hD, String.toList_append, h g (by omega)]
+  rfl
+
+/-- one level: if the items of vector cells print as their data do, so do the values above them -/
+theorem display_step (σ : Store) (recR : Value → Bool) (recD : Value → Datum)
+    (H : ∀ x f, recR x = true → (recD x).size ≤ f →
+      (Prim.display σ f x).toList = showDatum (recD x)) :
+    ∀ v f, readableStep σ recR v = true →
+      ((datumStep σ recD v).size ≤ f →
+        (Prim.display σ f v).toList = showDatum (datumStep σ recD v)) ∧
+      ((datumStep σ recD v).size + 1 ≤ f →
+        (Prim.displayTail σ f v).toList = showTail (datumStep σ recD v)) := by
+  intro v
+  induction v with
+  | num x =>
+    intro f hr
+    cases x with
+    | int i =>
+      refine conj_of_atomic rfl rfl (fun f hf => ?_) f
+      obtain ⟨f, rfl⟩ : ∃ g, f = g + 1 := ⟨f - 1, by
+        simp only [datumStep, Datum.size] at hf; omega⟩
+      rw [display_int, toString_int]; rfl
+    | rat n d =>
+      have hw : Num.WF (.rat n d) := of_decide_eq_true hr
+      have hd : 0 < d := hw.2.2.1
+      refine conj_of_atomic rfl rfl (fun f hf => ?_) f
+      obtain ⟨f, rfl⟩ : ∃ g, f = g + 1 := ⟨f - 1, by
+        simp only [datumStep, Datum.size] at hf; omega⟩
+      rw [display_rat, String.toList_append, String.toList_append, toString_int,
+        toString_posInt d hd]
+      simp [datumStep, showDatum, renderTok]
+    | real r => simp [readableStep] at hr
+  | bool b =>
+    intro f hr
+    refine conj_of_atomic rfl rfl (fun f hf => ?_) f
+    obtain ⟨f, rfl⟩ : ∃ g, f = g + 1 := ⟨f - 1, by
+      simp only [datumStep, Datum.size] at hf; omega⟩
+    rw [display_bool]
+    cases b <;> simp [datumStep, showDatum, renderTok]
+  | char c =>
+    intro f hr
+    refine conj_of_atomic rfl rfl (fun f hf => ?_) f
+    obtain ⟨f, rfl⟩ : ∃ g, f = g + 1 := ⟨f - 1, by
+      simp only [datumStep, Datum.size] at hf; omega⟩
+    rw [display_char]
+    simp [datumStep, showDatum, renderTok]
+  | sym s =>
+    intro f hr
+    have hp : isPlainIdent s.toList = true := hr
+    refine conj_of_atomic rfl rfl (fun f hf => ?_) f
+    obtain ⟨f, rfl⟩ : ∃ g, f = g + 1 := ⟨f - 1, by
+      simp only [datumStep, Datum.size] at hf; omega⟩
+    rw [display_sym]
+    simp [datumStep, showDatum, renderTok, hp]
+  | nil =>
+    intro f hr
+    constructor <;> intro hf <;> obtain ⟨f, rfl⟩ : ∃ g, f = g + 1 := ⟨f - 1, by
+      simp only [datumStep, Datum.size] at hf; omega⟩
+    · rw [display_nil]; simp [datumStep, showDatum]
+    · rw [displayTail_nil]; simp [datumStep, showTail]
+  | pair a d iha ihd =>
+    intro f hr
+    simp only [readableStep, Bool.and_eq_true] at hr
+    have sa := Datum.size_pos (datumStep σ recD a)
+    have sd := Datum.size_pos (datumStep σ recD d)
+    constructor <;> intro hf <;> obtain ⟨f, rfl⟩ : ∃ g, f = g + 1 := ⟨f - 1, by
+      simp only [datumStep, Datum.size] at hf; omega⟩
+    · simp only [datumStep, Datum.size] at hf
+      have h1 := (iha f hr.1).1 (by omega)
+      have h2 := (ihd f hr.2).2 (by omega)
+      rw [display_pair]
+      simp [datumStep, showDatum, h1, h2]
+    · simp only [datumStep, Datum.size] at hf
+      have h1 := (iha f hr.1).1 (by omega)
+      have h2 := (ihd f hr.2).2 (by omega)
+      rw [displayTail_pair]
+      simp [datumStep, showTail, h1, h2]
+  | vec id =>
+    intro f hr
+    simp only [readableStep] at hr
+    split at hr
+    next cell hc =>
+      have hD : datumStep σ recD (.vec id) = .vec (cell.items.map recD) none := by
+        simp [datumStep, hc]
+      rw [hD]
+      refine conj_of_atomic rfl rfl (fun f hf => ?_) f
+      obtain ⟨f, rfl⟩ : ∃ g, f = g + 1 := ⟨f - 1, by
+        simp only [Datum.size] at hf; omega⟩
+      simp only [Datum.size] at hf
+      have key : [' '].intercalate (cell.items.map (fun x => (Prim.display σ f x).toList))
+            = showItems (cell.items.map recD) := by
+        apply intercalate_items
+        intro x hx
+        apply H x f (List.all_eq_true.1 hr x hx)
+        exact Nat.le_trans (Datum.size_le_sizeList (List.mem_map_of_mem hx)) (by omega)
+      rw [display_vec]
+      simp [hc, showDatum, String.toList_intercalate, List.map_map, Function.comp_def, key]
+    next => simp at hr
+  | str s => intro f hr; simp [readableStep] at hr
+  | closure l e => intro f hr; simp [readableStep] at hr
+  | builtin b => intro f hr; simp [readableStep] at hr
+  | transformer r => intro f hr; simp [readableStep] at hr
+  | void => intro f hr; simp [readableStep] at hr
+
+/-- `display` prints a readable value as `showDatum` writes its datum -/
+theorem display_datumN (σ : Store) (n : Nat) : ∀ v f, readableN σ n v = true →
+    (datumN σ n v).size ≤ f → (Prim.display σ f v).toList = showDatum (datumN σ n v) := by
+  induction n with
+  | zero =>
+    intro v f hr hf
+    exact ((display_step σ _ _ (fun x f h => by simp at h)) v f hr).1 hf
+  | succ n ih =>
+    intro v f hr hf
+    exact ((display_step σ _ _ ih) v f hr).1 hf
+
+/-! ## the printer's layout is valid, the data of readable values are supported -/
+
+mutual
+theorem toks_noUnquote : (d : Datum) → ∀ t ∈ (Syn.ofDatum d).toks, t ≠ .unquote
+  | .prim p _ => by simp [Syn.ofDatum, Syn.toks]
+  | .sym s _ => by simp [Syn.ofDatum, Syn.toks]
+  | .nil _ => by simp [Syn.ofDatum, Syn.toks, Syn.toksL]
+  | .vec xs _ => by
+    have h := toksL_noUnquote xs
+    intro t ht
+    simp only [Syn.ofDatum, Syn.toks, List.mem_cons, List.mem_append, List.not_mem_nil,
+      or_false] at ht
+    rcases ht with rfl | ht | rfl
+    · simp
+    · exact h t ht
+    · simp
+  | .pair a d l => by
+    have h1 := toks_noUnquote a
+    have h2 := tailToks_noUnquote d
+    intro t ht
+    rw [toks_ofDatum_pair] at ht
+    simp only [List.mem_cons, List.mem_append] at ht
+    rcases ht with rfl | ht | ht
+    · simp
+    · exact h1 t ht
+    · exact h2 t ht
+theorem tailToks_noUnquote : (d : Datum) → ∀ t ∈ tailToks d, t ≠ .unquote
+  | .nil _ => by simp [tailToks_nil]
+  | .prim p _ => by simp [tailToks_prim]
+  | .sym s _ => by simp [tailToks_sym]
+  | .vec xs _ => by
+    have h := toksL_noUnquote xs
+    intro t ht
+    simp only [tailToks_vec, List.mem_cons, List.mem_append, List.not_mem_nil, or_false] at ht
+    rcases ht with rfl | rfl | ht | rfl | rfl
+    · simp
+    · simp
+    · exact h t ht
+    · simp
+    · simp
+  | .pair a d l => by
+    have h1 := toks_noUnquote a
+    have h2 := tailToks_noUnquote d
+    intro t ht
+    rw [tailToks_pair] at ht
+    simp only [List.mem_append] at ht
+    rcases ht with ht | ht
+    · exact h1 t ht
+    · exact h2 t ht
+theorem toksL_noUnquote : (xs : List Datum) → ∀ t ∈ Syn.toksL (Syn.ofDatums xs), t ≠ .unquote
+  | [] => by simp [Syn.ofDatums, Syn.toksL]
+  | x :: xs => by
+    have h1 := toks_noUnquote x
+    have h2 := toksL_noUnquote xs
+    intro t ht
+    simp only [Syn.ofDatums, Syn.toksL, List.mem_append] at ht
+    rcases ht with ht | ht
+    · exact h1 t ht
+    · exact h2 t ht
+end
+
+/-- the printer's layout is a valid layout of every datum with supported atoms -/
+theorem validLayout_printerLayout (d : Datum) (hd : SupportedD d) :
+    ValidLayout (Syn.ofDatum d).toks (printerLayout d) :=
+  validLayout_of_gaps _ _ (toks_supported _ (ofDatum_supported d hd))
+    (validGaps_lay _ true (toks_noUnquote d))
+
+theorem supportedDs_map (g : Value → Datum) (items : List Value)
+    (h : ∀ x ∈ items, SupportedD (g x)) : SupportedDs (items.map g) := by
+  induction items with
+  | nil => trivial
+  | cons x xs ih =>
+    exact ⟨h x (by simp), ih (fun y hy => h y (by simp [hy]))⟩
+
+theorem supportedD_step (σ : Store) (recR : Value → Bool) (recD : Value → Datum)
+    (H : ∀ x, recR x = true → SupportedD (recD x)) :
+    ∀ v, readableStep σ recR v = true → SupportedD (datumStep σ recD v) := by
+  intro v
+  induction v with
+  | num x =>
+    intro hr
+    cases x with
+    | int i => exact hr
+    | rat n d =>
+      have hw : Num.WF (.rat n d) := of_decide_eq_true hr
+      obtain ⟨h1, h2, h3, -, -⟩ := hw
+      refine ⟨h1, by omega, ?_⟩
+      simp only [fitsI32, Bool.and_eq_true, decide_eq_true_eq] at h2
+      omega
+    | real r => simp [readableStep] at hr
+  | bool b => intro _; trivial
+  | char c => intro _; trivial
+  | sym s => intro hr; exact Or.inl hr
+  | nil => intro _; trivial
+  | pair a d iha ihd =>
+    intro hr
+    simp only [readableStep, Bool.and_eq_true] at hr
+    exact ⟨iha hr.1, ihd hr.2⟩
+  | vec id =>
+    intro hr
+    simp only [readableStep] at hr
+    split at hr
+    next cell hc =>
+      simp only [datumStep, hc, SupportedD]
+      exact supportedDs_map _ _ (fun x hx => H x (List.all_eq_true.1 hr x hx))
+    next => simp at hr
+  | str s => intro hr; simp [readableStep] at hr
+  | closure l e => intro hr; simp [readableStep] at hr
+  | builtin b => intro hr; simp [readableStep] at hr
+  | transformer r => intro hr; simp [readableStep] at hr
+  | void => intro hr; simp [readableStep] at hr
+
+theorem supportedD_datumN (σ : Store) (n : Nat) :
+    ∀ v, readableN σ n v = true → SupportedD (datumN σ n v) := by
+  induction n with
+  | zero => exact supportedD_step σ _ _ (fun x h => by simp at h)
+  | succ n ih => exact supportedD_step σ _ _ ih
+
 end Ruschm.Print
